@@ -6,7 +6,9 @@ This file is executed in a fresh interpreter that never imports pedal:
     python sandboxequiv_ref.py <jobs.json> <results.json>
 
 Each job {"code", "filename", "inputs": [...], "pad": null | "0", "calls": [{"fn", "args": [expr...],
-"kwargs": {k: expr}}]} is executed as `__main__` (a fresh module object installed in sys.modules, exactly what
+"kwargs": {k: expr}, "fkw": {k: expr} (keyword arguments the grader hands over through function_kwargs=),
+"args_locals": [expr | null], "kwargs_locals": {k: expr} (expressions over the program's namespace)} |
+{"op": "evaluate", "expr", "target"} | {"op": "clear_output"} | {"op": "let"} | {"op": "rerun"}]} is executed as `__main__` (a fresh module object installed in sys.modules, exactly what
 runpy does), with sys.stdin holding the inputs and sys.stdout recorded.  Reported per job:
 
   out      the text written to standard output
@@ -240,10 +242,33 @@ def run_job(job):
                     res["calls"].append({"op": "rerun", "result": ["rerun", outcome], "outcome": outcome, "outcome_mro": mro,
                                          "events": tr.take(), "globals": globals_of(g)})
                     continue
+                if op == "clear_output":
+                    # the grader forgets what was printed so far: nothing happens in the interpreter
+                    res["calls"].append({"op": "clear_output", "result": ["cleared"], "events": tr.take()})
+                    continue
+                if op == "evaluate":
+                    # evaluate(expr, target=t): the direct counterpart is the statement `t = <expr>` in the program's
+                    # namespace
+                    mro, line = [], None
+                    try:
+                        value = eval(compile(c["expr"], "<grader>", "eval", dont_inherit=True), g)
+                        g[c.get("target", "_")] = value
+                        r = ["ret", describe(value)]
+                    except JobTimeout:
+                        raise
+                    except BaseException as e:  # noqa
+                        r = ["exc", type(e).__name__]
+                        mro = [k.__name__ for k in type(e).__mro__]
+                        line = innermost_line(e, filename)
+                    res["calls"].append({"op": "evaluate", "result": r, "events": tr.take(), "mro": mro, "line": line})
+                    continue
                 env = student_env(g) if c.get("scope") == "student" else {"__builtins__": builtins}
                 try:
                     args = [eval(a, env, hv) for a in c.get("args", [])]
                     kwargs = {k: eval(a, env, hv) for k, a in c.get("kwargs", {}).items()}
+                    # keyword arguments handed over through function_kwargs= are keyword arguments of the student's
+                    # function like any other (the documented way for names the grader's call() uses itself)
+                    kwargs.update({k: eval(a, env, hv) for k, a in c.get("fkw", {}).items()})
                 except Exception as e:      # noqa
                     res["calls"].append({"result": ["harness", type(e).__name__], "events": []})
                     continue
@@ -255,6 +280,17 @@ def run_job(job):
                     continue
                 try:
                     fn = g[c["fn"]]
+                    # args_locals / kwargs_locals: the argument is an expression over the program's own namespace,
+                    # evaluated when the call is made (a failure there is the call's failure)
+                    for i, expr in enumerate(c.get("args_locals", [])):
+                        if expr is not None:
+                            got = eval(compile(expr, "<grader>", "eval", dont_inherit=True), g)
+                            if i < len(args):
+                                args[i] = got
+                            else:
+                                args.append(got)
+                    for k, expr in c.get("kwargs_locals", {}).items():
+                        kwargs[k] = eval(compile(expr, "<grader>", "eval", dont_inherit=True), g)
                     value = fn(*args, **kwargs)
                     # call() is documented to assign the result to `target` (default "_"): the direct
                     # counterpart of call(fn, *args, target=t) is the statement `t = fn(*args)`
